@@ -17,3 +17,5 @@ CONSTANTS
   PartFix = TRUE
   SubAt = "last"
   SyncSteps = FALSE
+  StallSteps = FALSE
+  SkipSeenByListing = FALSE
